@@ -2035,7 +2035,7 @@ def clean_dictionary(ddct):
     # Groups of named values.
     for key in ["attrs", "fattrs", "fields", "format", "options",
                 "fstatements", "splicer", "splicer_code", "doxygen",
-                "python", "setup"]:
+                "python", "setup", "patterns"]:
         if key not in ddct:
             continue
         if ddct[key] is None:
